@@ -461,10 +461,62 @@ def check_builder_effects(chk, prog):
     chk.rule('C10.builder-unchanged', 'nothing reachable from jwt_builder_generate writes a builder field other than error/error_msg', n, bad, floor=20)
 
 
+def check_buffers(chk, prog, env, model, rulename='C10.buffers'):
+    """jwt_encode: every strcpy/strcat/sprintf fits the buffer it writes, and the signer is given exactly the length of the text"""
+    import buffers
+    unit = 'libjwt/jwt-encode.c'
+    prog.func(unit, 'jwt_encode')
+    n = 0
+    bad = 0
+    NONE = env.alg_val['none']
+    for alg in (NONE, env.alg_val['HS256']):
+        rule = buffers.BufRule()
+        hk = buffers.hooks(rule, env)
+
+        def h_sign(it, st, args, node, rule=rule):
+            data, dl = args[3], args[4]
+            l = rule.len_of(it, st, data, node)
+            rule.obligations += 1
+            if l is not None:
+                a, b = linform(dl), linform(l)
+                if a is None or b is None or a != b:
+                    rule.viol.append(('sign-length', 'jwt_sign is given %s bytes of a text of length %s: the signature must cover exactly the '
+                                                     'text that is emitted' % (buffers.show(dl), buffers.show(l)), node_loc(node), 'jwt_encode'))
+            o = st.newobj('sigraw')
+            it.store(st, args[1].loc, args[1].path, Ref(o))
+            sl = Term(('siglen',))
+            st.cons[sl.k] = (('>=', 0),)
+            it.store(st, args[2].loc, args[2].path, sl)
+            return [(st, Int(0))]
+        hk['jwt_sign'] = h_sign
+        it = Interp(prog, unit, model=model, rule=rule, hooks=hk)
+        st = State()
+        jwt = ('obj', 'jwt')
+        st.zero.add(jwt)
+        st.mem[(jwt, 'alg')] = Int(alg)
+        st.mem[(jwt, 'headers')] = Ref(('obj', 'hdrs'))
+        st.mem[(jwt, 'claims')] = Ref(('obj', 'clms'))
+        res = it.run('jwt_encode', [Ref(jwt), Ref(('obj', 'out'))], st)
+        if not any(isinstance(rv, Int) and rv.v == 0 for s_, rv in res):
+            raise AnalysisBroken('%s: jwt_encode has no successful path for alg %s' % (rulename, alg))
+        n += rule.obligations
+        for kind, msg, (f, l), fn in sorted(set(rule.viol), key=repr):
+            bad += 1
+            chk.add(Finding(rulename, f or unit, fn, kind, msg, line=l))
+        if rule.undecided and not rule.viol:
+            from interp import Unsupported
+            raise Unsupported(rule.undecided[0])
+    chk.rule(rulename, 'jwt_encode: each strcpy/strcat/sprintf writes at most the bytes allocated for its buffer (linear forms over the '
+                       'encoder results), and jwt_sign is handed exactly strlen of the text', n, bad, floor=6)
+
+
 def run(chk, prog, tier):
     env = Env(prog)
     model = build_model()
     chk.guard('assembly', check_assembly, chk, prog, env, model)
+    chk.guard('buffers', check_buffers, chk, prog, env, model)
+    from props import c11
+    chk.guard('encoder length fact', c11.check_url_maps, chk, prog, model)     # the buffer rule uses: result >= strlen(text)
     chk.guard('header setup', check_head_setup, chk, prog, env, model)
     chk.guard('time claims', check_time_claims, chk, prog, env, model)
     chk.guard('offset bookkeeping', check_offsets, chk, prog, env, model)
